@@ -55,8 +55,8 @@ def Enc.cname : Enc → List Nat
 def chT : Nat := 84   -- 'T'
 
 /-- THE `write_dns(fd, q, data, datalen, downenc)` -/
-def writeDns (q : Query) (data : List Nat) (downenc : Nat) : Event :=
-  Event.ans q.from_ q.id q.type downenc q.name data
+def writeDns (q : Query) (data : List Nat) (downenc : Nat) (tag : Tag := .ctrl) : Event :=
+  Event.ans q.from_ q.id q.type downenc q.name data tag
 
 /-- which of the two stored queries of a user a pointer points to -/
 inductive QSel where
@@ -197,7 +197,7 @@ def dnscacheFind (x : Session) (q : Query) : Nat → Nat → Option DnsCacheEntr
 def answerFromDnscache (s : Srv) (u : Nat) (q : Query) : Option Event :=
   let x := getUser s u
   match dnscacheFind x q DNSCACHE_LEN 0 with
-  | some e => some (writeDns q (e.answer.take e.answerlen) x.downenc)
+  | some e => some (writeDns q (e.answer.take e.answerlen) x.downenc (.cached u))
   | none => none
 
 /-- `save_to_qmem(cmc, type, len, &lastfilled, cmc_to_add, type_to_add)` -/
@@ -232,14 +232,14 @@ def saveToQmemPingOrData (s : Srv) (u : Nat) (q : Query) : Srv :=
       { x with qmemdata := r.1, qmemdataLast := r.2 }
 
 /-- `answer_from_qmem(dns_fd, q, cmc, type, len, cmc_to_check)`: the (illegal) answer if duplicate -/
-def answerFromQmem (q : Query) (mem : List QmemEntry) (cmc : List Nat) : Option Event :=
+def answerFromQmem (q : Query) (mem : List QmemEntry) (cmc : List Nat) (u : Nat) : Option Event :=
   if mem.any (fun e => e.type != T_UNSET && e.type == q.type && e.cmc == cmc) then
-    some (writeDns q (ascii "x") chT)
+    some (writeDns q (ascii "x") chT (.qmem u))
   else none
 
 /-- `answer_from_qmem_data(dns_fd, userid, q)` -/
 def answerFromQmemData (s : Srv) (u : Nat) (q : Query) : Option Event :=
-  answerFromQmem q (getUser s u).qmemdata (dataCmc q.name)
+  answerFromQmem q (getUser s u).qmemdata (dataCmc q.name) u
 
 /-! ### send_chunk_or_dataless -/
 
@@ -275,11 +275,11 @@ def scPkt (x : Session) (datalen : Nat) : List Nat :=
 
 /-- the `write_dns` to `q` and, if a duplicate is remembered (`id2 != 0`), to the duplicate; returns the
 query as the code leaves it (`id = id2; from = from2`) -/
-def scAnswer (q : Query) (pkt : List Nat) (downenc : Nat) : Query × List Event :=
+def scAnswer (q : Query) (pkt : List Nat) (downenc : Nat) (u : Nat) : Query × List Event :=
   if q.id2 ≠ 0 then
     let q' := { q with id := q.id2, from_ := q.from2 }
-    (q', [writeDns q pkt downenc, writeDns q' pkt downenc])
-  else (q, [writeDns q pkt downenc])
+    (q', [writeDns q pkt downenc (.chunk u), writeDns q' pkt downenc (.dupe u)])
+  else (q, [writeDns q pkt downenc (.chunk u)])
 
 /-- `send_chunk_or_dataless(dns_fd, userid, q)` with `q = &users[userid].<w>`; the `Bool` is the return
 value 1 ("call us again") -/
@@ -288,7 +288,7 @@ def sendChunkOrDataless (s : Srv) (u : Nat) (w : QSel) : Res × Bool :=
   let x := getUser s1 u
   let datalen := scDatalen x
   let pkt := scPkt x datalen
-  let a := scAnswer (w.get x) pkt x.downenc
+  let a := scAnswer (w.get x) pkt x.downenc u
   let s2 := saveToQmemPingOrData s1 u a.1
   let s3 := saveToDnscache s2 u a.1 pkt
   let s4 := setUser s3 u fun y => w.set y { a.1 with id := 0 }
@@ -595,7 +595,7 @@ def handlePing (s : Srv) (q : Query) (inb : List Nat) : Res :=
         match answerFromDnscache s u q with
         | some e => (s, [e])
         | none =>
-        match answerFromQmem q (getUser s u).qmemping (unpacked.take 4) with
+        match answerFromQmem q (getUser s u).qmemping (unpacked.take 4) u with
         | some e => (s, [e])
         | none =>
         match rememberDuplicate s u q with
